@@ -36,6 +36,12 @@ ASSUME = ['TLC results are exhaustive only within the stated constants (2 oids, 
 # The tree under test: the deviations of the code from the property that the specification carries behind
 # constants (TRUE = as the code is).  When one is repaired in /repo the matching constant is set to False here.
 TREE = dict(dd.AS_CODE)
+if os.environ.get('ZV_C16_TREE'):        # self-test against a scratch tree with proposed repairs, e.g. "UndoUncreates=0,PackAsCode=0"
+    for kv in os.environ['ZV_C16_TREE'].split(','):
+        k, v = kv.split('=')
+        if k not in TREE:
+            raise RuntimeError('ZV_C16_TREE: unknown constant %s' % k)
+        TREE[k] = v.strip() not in ('0', 'false', 'FALSE', '')
 
 # concrete base x changes kinds; kinds with the same model share the TLC-generated behaviours
 COMBOS = [('mapping', 'file'), ('file', 'mapping'), ('mapping', 'mapping'), ('file', 'file'), ('mapping', 'temp'),
@@ -241,12 +247,12 @@ def run(ctx):
     design_kw = dict(small, AtomVals=('v1',))
     code_kw = dict(small, MaxClock=1)
     if not q:
-        design_kw = code_kw = dict(MaxBase=2, MaxTxn=2, MaxRecs=2, MaxClock=2, MaxUndo=1, MaxLayers=2, MaxNewOid=1, MaxPack=1)
-        stacked = dict(MaxBase=1, MaxTxn=2, MaxRecs=1, MaxClock=2, MaxUndo=1, MaxLayers=3, MaxNewOid=1, MaxPack=1)
+        design_kw = code_kw = dict(MaxBase=2, MaxTxn=2, MaxRecs=1, MaxClock=2, MaxUndo=1, MaxLayers=2, MaxNewOid=1, MaxPack=0)
+        stacked = dict(MaxBase=1, MaxTxn=2, MaxRecs=1, MaxClock=2, MaxUndo=1, MaxLayers=3, MaxNewOid=1, MaxPack=0)
 
     def sized(kw, k):
-        # the demo storage's own changes: pack is usable (quick: instead of new_oid)
-        return dict(kw, MaxPack=1, MaxNewOid=0 if q else 1) if k[2] else kw
+        # the demo storage's own changes: pack is usable (quick: instead of new_oid; thorough: one base transaction)
+        return dict(kw, MaxPack=1, MaxNewOid=0 if q else 1, MaxBase=1) if k[2] else kw
     w = 2 if q else 4
     to = 280 if q else 3000
     jobs = []
@@ -256,7 +262,7 @@ def run(ctx):
     # quick: the specification-internal runs (design / transcription against the meaning) on two flavours each,
     # thorough: on every flavour; the conformance part below always covers every flavour
     design_keys = [k for k in keys if not q or k in (('mapping', 'file', False), ('mapping', 'mapping', True))]
-    code_keys = [k for k in keys if not q or k in (('file', 'file', False), ('mapping', 'mapping', True))]
+    code_keys = [k for k in keys if (not q and k != ('mapping', 'mapping', False)) or k in (('file', 'file', False), ('mapping', 'mapping', True))]
     for k in keys:
         n = model_name(k)
         if k in design_keys:
@@ -265,6 +271,10 @@ def run(ctx):
         if deviating and k in code_keys:
             jobs.append((_job_check, (ctx.scratch, 'code-' + n, mconsts(k, mode=as_tree, **sized(code_kw, k)),
                                       dd.INVARIANTS + ['Explained'], dd.PROPERTIES, w, to)))
+    if not q:
+        # one transaction more through the demo storage
+        jobs.append((_job_check, (ctx.scratch, 'design-deep-mapping-file',
+                                  mconsts(cex_key, mode=dd.REPAIRED, **dict(design_kw, MaxBase=1, MaxTxn=3)), inv_design, prop_design, 6, to)))
     # push / pop (three layers) on one file and one temporary flavour
     for k in [x for x in keys if x in (('mapping', 'file', False), ('mapping', 'mapping', True))][:1 if q else 2]:
         jobs.append((_job_check, (ctx.scratch, 'design-stacked-' + model_name(k), mconsts(k, mode=dd.REPAIRED, **stacked),
@@ -291,13 +301,13 @@ def run(ctx):
     big = dict(MaxBase=4, MaxTxn=12, MaxClock=7, K=64, MaxLayers=3, MaxNewOid=8, MaxPack=2, MaxUndo=2, PrintObs=True)
     simc = dict(MaxBase=2, MaxTxn=6, MaxClock=3, K=64, MaxLayers=3, MaxNewOid=2, MaxPack=1, MaxUndo=2, PrintObs=True,
                 Metas=('m0', 'm1'))
-    num = 60 if q else 1500
+    num = 60 if q else 600
     fams = {}
     for k in keys:
         n = model_name(k)
         b, c = k[0], 'temp' if k[2] else k[1]
         refs = 'FewRefs' if k[2] else 'NoRefs'
-        fam = ds.families(b, c, random.Random(seed * 7919 + 11), extra=8 if q else 200)
+        fam = ds.families(b, c, random.Random(seed * 7919 + 11), extra=8 if q else 120)
         fams[k] = fam
         jobs.append((_job_scripts, (ctx.scratch, 'scripts-' + n, mconsts(k, mode=as_tree, RefSets=refs, **big),
                                     [s for _, s in fam], 2, to)))
